@@ -81,7 +81,7 @@ def doLine (line : String) : String :=
     let del := r.2.delivered.map delOf
     let wild := (sc.splitOn " ;; ").any fun c =>
       let t := c.trimAscii.toString
-      t.startsWith "open1p" || t.startsWith "opennc" || t.startsWith "openxc" || t.startsWith "stream1p"
+      t.startsWith "open1p" || t.startsWith "opennc" || t.startsWith "openxc" || t.startsWith "stream1p" || t.startsWith "openexp" || t.startsWith "openmun"
     -- sessions in the other collect modes (one-pass streams / no collection): only "exactly one reply per command, server and
     -- connection alive" is specified; replies are compared as `reply`, deliveries are not compared
     let nCmds := ((sc.splitOn " ;; ").filter fun c => c.trimAscii.toString != "" && !c.trimAscii.toString.startsWith "sleep").length
